@@ -151,4 +151,126 @@ def compileStringList (t : Str) : Option (Except PyExc Str) :=
     *unchanged* (quotes and escape sequences included) — known finding C08-F1 -/
 def charConstantValue (tok : Str) : Str := tok
 
+/-! ### numeric tokens (t_floatValue, t_hexValue, t_binaryValue, t_octalValue, t_decimalValue) -/
+
+/-- longest prefix of characters satisfying `p`, and the rest -/
+def spanP (p : Nat → Bool) : Str → Str × Str
+  | [] => ([], [])
+  | c :: cs => if p c then let r := spanP p cs; (c :: r.1, r.2) else ([], c :: cs)
+
+/-- `[+-]?` : (sign text, rest) -/
+def optSign : Str → Str × Str
+  | 43 :: cs => ([43], cs)
+  | 45 :: cs => ([45], cs)
+  | s => ([], s)
+
+/-- value of a digit string in base `b` (digits already validated; hex letters either case) -/
+def digitsVal (b : Nat) (ds : Str) : Nat := ds.foldl (fun a d => a * b + hexVal d) 0
+
+/-- mirrors Python `int(text, base)` for `[+-]?digits` -/
+def signedVal (sign : Str) (n : Nat) : Int := if sign = [45] then -(n : Int) else (n : Int)
+
+inductive NumTok where
+  | float (text : Str)        -- value = float(text): the decimal -> double conversion is not modelled
+  | int (v : Int)
+  | error (text : Str)        -- "Invalid binary/octal number": token type 'error'
+  deriving Repr, DecidableEq
+
+/-- mirrors t_floatValue: `[+-]?[0-9]*\.[0-9]+([eE][+-]?[0-9]+)?` -/
+def lexFloat (s : Str) : Option (Str × Str) :=
+  let sg := optSign s
+  let ip := spanP isDigit sg.2
+  match ip.2 with
+  | 46 :: r =>
+    let fp := spanP isDigit r
+    if fp.1 = [] then none
+    else
+      let base := sg.1 ++ ip.1 ++ 46 :: fp.1
+      match fp.2 with
+      | e :: r2 =>
+        if e = 101 ∨ e = 69 then
+          let es := optSign r2
+          let ed := spanP isDigit es.2
+          if ed.1 = [] then some (base, fp.2) else some (base ++ e :: es.1 ++ ed.1, ed.2)
+        else some (base, fp.2)
+      | [] => some (base, [])
+  | _ => none
+
+/-- mirrors t_hexValue: `[+-]?0[xX][0-9a-fA-F]+`, value int(text, 16) -/
+def lexHex (s : Str) : Option (Int × Str) :=
+  let sg := optSign s
+  match sg.2 with
+  | 48 :: x :: r =>
+    if x = 120 ∨ x = 88 then
+      let hd := spanP isHexDigit r
+      if hd.1 = [] then none else some (signedVal sg.1 (digitsVal 16 hd.1), hd.2)
+    else none
+  | _ => none
+
+/-- mirrors t_binaryValue: `[+-]?[0-9]+[bB]`; digits 2-9 make it an error token -/
+def lexBinary (s : Str) : Option (NumTok × Str) :=
+  let sg := optSign s
+  let ds := spanP isDigit sg.2
+  if ds.1 = [] then none
+  else match ds.2 with
+    | b :: r =>
+      if b = 98 ∨ b = 66 then
+        if ds.1.any (fun d => decide (50 ≤ d)) then some (.error (sg.1 ++ ds.1 ++ [b]), r)
+        else some (.int (signedVal sg.1 (digitsVal 2 ds.1)), r)
+      else none
+    | [] => none
+
+/-- mirrors t_octalValue: `[+-]?0[0-9]+`; digits 8-9 make it an error token -/
+def lexOctal (s : Str) : Option (NumTok × Str) :=
+  let sg := optSign s
+  match sg.2 with
+  | 48 :: r =>
+    let ds := spanP isDigit r
+    if ds.1 = [] then none
+    else if ds.1.any (fun d => decide (56 ≤ d)) then some (.error (sg.1 ++ 48 :: ds.1), ds.2)
+    else some (.int (signedVal sg.1 (digitsVal 8 ds.1)), ds.2)
+  | _ => none
+
+/-- mirrors t_decimalValue: `[+-]?([1-9][0-9]*|0)`, value int(text) -/
+def lexDecimal (s : Str) : Option (Int × Str) :=
+  let sg := optSign s
+  match sg.2 with
+  | c :: r =>
+    if 49 ≤ c ∧ c ≤ 57 then
+      let ds := spanP isDigit r
+      some (signedVal sg.1 (digitsVal 10 (c :: ds.1)), ds.2)
+    else if c = 48 then some (0, r)
+    else none
+  | [] => none
+
+/-- the numeric token at the head of the input, in PLY's rule order (the order of the function definitions):
+    float, hex, binary, octal, decimal; first rule that matches wins -/
+def lexNumber (s : Str) : Option (NumTok × Str) :=
+  match lexFloat s with
+  | some (t, r) => some (.float t, r)
+  | none =>
+    match lexHex s with
+    | some (v, r) => some (.int v, r)
+    | none =>
+      match lexBinary s with
+      | some x => some x
+      | none =>
+        match lexOctal s with
+        | some x => some x
+        | none =>
+          match lexDecimal s with
+          | some (v, r) => some (.int v, r)
+          | none => none
+
+/-- decimal digits of `n`, most significant first (`fuel` > number of digits) -/
+def decDigits : Nat → Nat → Str
+  | 0, _ => []
+  | f + 1, n => if n < 10 then [48 + n] else decDigits f (n / 10) ++ [48 + n % 10]
+
+/-- mirrors Python `str(n)` for a non-negative int -/
+def natStr (n : Nat) : Str := decDigits (n + 1) n
+
+/-- mirrors Python `str(v)` for an int (what `_scalar_value_tomof` prints for CIM integer values) -/
+def intStr (v : Int) : Str := if v < 0 then 45 :: natStr v.natAbs else natStr v.natAbs
+
 end Pywbem.Model.MofLex
